@@ -58,7 +58,7 @@ def handler : Handler := fun op args =>
       let i : IInit := { nFrames, rep, cache, size := ⟨w, 0⟩, seekPos }
       pure (runI i ops ++ " || " ++ runI { i with cache := .flag false } ops)) args
   | "decision" => Wire.run (do
-      let count ← optOf nat; let loops ← int; let cache ← pCache
+      let declared ← pDeclared; let count := declared.resolve; let loops ← int; let cache ← pCache
       pure s!"ok {fmtBool (cachedDecision count cache)} {fmtBool (cachedDecision count (drawCache loops cache))}") args
   | "draw" => Wire.run (do
       -- `<n> <loops> <cache> <m>`: per-frame `_render_` counts of draw() interrupted after `m` further frames
